@@ -1,21 +1,153 @@
 // Package xfer: ICS-20 token transfer on real ibctesting chains, compared with the Lean model
 // (engine "xfer" of the xfermodel executable).
+//
+//	xfer -groups denom,world,hoplike,findings -n 300 -monitor 300 -cases c.jsonl -violations v.jsonl
+//	xfer -replay requests.jsonl -cases c.jsonl
+//
+// Groups: denom    stateless denomination algebra (C34, C42, C33 pure parts)
+//
+//	world    random histories on three chains, hop-free native denominations
+//	hoplike  the same with native denominations shaped like voucher paths (known findings F3)
+//	findings deterministic replays of the witnesses of the `_full_false` theorems
 package xfer
 
 import (
+	"bufio"
+	"encoding/json"
+	"flag"
 	"fmt"
-	"testing"
-	"time"
+	"os"
+	"strings"
 
-	ibctesting "github.com/cosmos/ibc-go/v11/testing"
+	. "verif/harness/lib"
 )
 
 func Main() int {
-	t0 := time.Now()
-	coord := ibctesting.NewCoordinator(&testing.T{}, 3)
-	a, b := coord.GetChain(ibctesting.GetChainID(1)), coord.GetChain(ibctesting.GetChainID(2))
-	p := ibctesting.NewTransferPath(a, b)
-	p.Setup()
-	fmt.Println(p.EndpointA.ChannelID, p.EndpointB.ChannelID, time.Since(t0))
+	groups := flag.String("groups", "", "comma-separated group names (empty = all)")
+	n := flag.Int("n", 200, "iterations (denom: request bundles; world groups: ops)")
+	mon := flag.Int("monitor", 200, "monitor iterations (denom group)")
+	casesPath := flag.String("cases", "cases.jsonl", "output: correspondence cases")
+	violPath := flag.String("violations", "violations.jsonl", "output: monitor violations")
+	replay := flag.String("replay", "", "evaluate the requests of this JSON-lines file instead of generating")
+	flag.Parse()
+	cs, err := NewSink(*casesPath)
+	if err != nil {
+		fmt.Fprintln(os.Stderr, err)
+		return 2
+	}
+	if *replay != "" {
+		doReplay(*replay, cs)
+		cs.Close()
+		fmt.Printf("cases=%d\n", cs.N)
+		return 0
+	}
+	vs, err := NewSink(*violPath)
+	if err != nil {
+		fmt.Fprintln(os.Stderr, err)
+		return 2
+	}
+	want := map[string]bool{}
+	for _, g := range strings.Split(*groups, ",") {
+		if g != "" {
+			want[g] = true
+		}
+	}
+	on := func(g string) bool { return len(want) == 0 || want[g] }
+	seed := EnvSeed()
+	perKey := map[string]int{}
+	report := func(v Viol) {
+		k := v.Property + "|" + v.Key + "|" + v.What
+		perKey[k]++
+		if perKey[k] <= 3 {
+			vs.Put(v)
+		}
+	}
+	put := func(in M, out any) { cs.Put(Case{In: in, Out: out}) }
+	if on("denom") {
+		r := NewRng(seed ^ 0xD0)
+		GenDenom(r.Fork(), *n, put)
+		MonitorDenom(r.Fork(), *mon, report)
+	}
+	if on("findings") {
+		Findings(put, report)
+	}
+	for _, grp := range []string{"world", "hoplike"} {
+		if !on(grp) {
+			continue
+		}
+		r := NewRng(seed ^ uint64(len(grp))*0x9E37)
+		left := *n
+		for left > 0 {
+			k := 60 + r.Intn(60)
+			if k > left {
+				k = left
+			}
+			left -= k
+			natives := hopFreeNatives
+			if grp == "hoplike" {
+				natives = hopLikeNatives
+			}
+			w := NewWorld(natives, grp == "hoplike")
+			m := &Monitors{report: report, strict: true}
+			m.initSup = initialSupplies(w)
+			g := &Gen{r: r.Fork(), w: w, mon: m, out: put}
+			g.History(k)
+		}
+	}
+	cs.Close()
+	vs.Close()
+	fmt.Printf("cases=%d violations=%d\n", cs.N, vs.N)
 	return 0
+}
+
+func doReplay(path string, cs *Sink) {
+	f, err := os.Open(path)
+	if err != nil {
+		fmt.Fprintln(os.Stderr, err)
+		os.Exit(2)
+	}
+	defer f.Close()
+	sc := bufio.NewScanner(f)
+	sc.Buffer(make([]byte, 1<<20), 1<<26)
+	var w *World
+	mon := &Monitors{}
+	for sc.Scan() {
+		var in M
+		if err := json.Unmarshal(sc.Bytes(), &in); err != nil {
+			continue
+		}
+		if inner, ok := in["in"].(map[string]any); ok {
+			in = inner
+		}
+		var out any
+		switch {
+		case str(in, "f") == "reset":
+			nat := [][]string{}
+			if l, ok := in["natives"].([]any); ok {
+				for _, x := range l {
+					row := []string{}
+					if xs, ok := x.([]any); ok {
+						for _, y := range xs {
+							s, _ := y.(string)
+							row = append(row, s)
+						}
+					}
+					nat = append(nat, row)
+				}
+			}
+			for len(nat) < 3 {
+				nat = append(nat, nil)
+			}
+			w = NewWorld(nat, boolean(in, "hoplike"))
+			out = M{"r": "ok"}
+			in = w.ResetRequest()
+		case isPure(str(in, "f")):
+			out = EvalPure(in)
+		case w == nil:
+			out = M{"bad": "no world"}
+		default:
+			out = Safe(func() any { return w.Exec(in, mon) })
+		}
+		cs.Put(Case{In: in, Out: out})
+	}
 }
